@@ -71,7 +71,8 @@ Record session := {
   r_teardown : bool;
   r_setup : bool;
   r_creator : bool;
-  r_polled : bool              (* the scheduler's status was read in this round *)
+  r_polled : bool;             (* the scheduler's status was read in this round *)
+  r_collected : bool           (* the node result files were read in this round *)
 }.
 
 Inductive hstate := HPending | HRunning | HGone | HCancelled.
@@ -184,7 +185,7 @@ Definition new_session (p : N) (s : state) (creator : bool) : session := {|
   r_pid := p; r_alive := true; r_st := st s; r_bl := bl s; r_index := next_index s; r_out := ids s;
   r_round := false; r_canceled := canceled s; r_owns := false; r_placed := []; r_seen := [];
   r_updated := false; r_check := None; r_summary := false; r_teardown := false; r_setup := false;
-  r_creator := creator; r_polled := false |}.
+  r_creator := creator; r_polled := false; r_collected := false |}.
 
 Definition with_holder (s : state) (h : option session) : state := {|
   created := created s; st := st s; bl := bl s; ids := ids s; next_index := next_index s; holder := h;
@@ -241,6 +242,14 @@ Definition snap_bl (sn : snapshot) (j : N) : list N :=
 
 Definition set_session (s : state) (r : session) : state := with_holder s (Some r).
 
+(* HpcSubmitter.run leaves a NOT_SUBMITTED job without blockers behind only when its queue is full
+   (or the submission is canceled): judged on the table as it is after the round's status update *)
+Definition round_maximal (sc : scenario) (r : session) : bool :=
+  r_canceled r
+  || negb (depth_ok (sc_max_nodes sc) (N.of_nat (length (r_out r))))
+  || forallb (fun j => negb (jstate_eqb (r_st r j) NS && match r_bl r j with [] => true | _ => false end)
+                       || memN j (r_placed r)) (all_jobs sc).
+
 (* ---------- the acceptor ---------- *)
 Definition step (sc : scenario) (s : state) (e : event) : option state :=
   match e with
@@ -270,19 +279,19 @@ Definition step (sc : scenario) (s : state) (e : event) : option state :=
         Some (set_session s {| r_pid := r_pid r; r_alive := true; r_st := r_st r; r_bl := r_bl r; r_index := r_index r;
                r_out := r_out r; r_round := true; r_canceled := r_canceled r; r_owns := false; r_placed := [];
                r_seen := []; r_updated := false; r_check := None; r_summary := false; r_teardown := false;
-               r_setup := r_setup r; r_creator := r_creator r; r_polled := false |})
+               r_setup := r_setup r; r_creator := r_creator r; r_polled := false; r_collected := false |})
       else None
     | None => None
     end
   | ESqueue p active =>
     match in_round s p with
     | Some r =>
-      if eqsetN active (active_ids s) then
+      if eqsetN active (active_ids s) && negb (r_collected r) && negb (r_owns r) then
         Some (set_session s {| r_pid := r_pid r; r_alive := true; r_st := r_st r; r_bl := r_bl r; r_index := r_index r;
                r_out := filter (fun i => memN i active) (r_out r); r_round := true; r_canceled := r_canceled r;
                r_owns := r_owns r; r_placed := r_placed r; r_seen := r_seen r; r_updated := r_updated r;
                r_check := r_check r; r_summary := r_summary r; r_teardown := r_teardown r; r_setup := r_setup r;
-               r_creator := r_creator r; r_polled := true |})
+               r_creator := r_creator r; r_polled := true; r_collected := r_collected r |})
       else None
     | None => None
     end
@@ -290,14 +299,15 @@ Definition step (sc : scenario) (s : state) (e : event) : option state :=
   | ECollect p rs =>
     match in_round s p with
     | Some r =>
-      if all_mem_rows rs (pending s) && negb (r_owns r) && negb (r_updated r) && negb (marker s) then
+      if all_mem_rows rs (pending s) && negb (r_owns r) && negb (r_updated r) && negb (marker s)
+         && (r_polled r || match r_out r with [] => true | _ => false end) then
         let names := row_names rs in
         let r' := {| r_pid := r_pid r; r_alive := true; r_st := r_st r;
                      r_bl := fun j => match r_st r j with NS => diffN (r_bl r j) names | _ => r_bl r j end;
                      r_index := r_index r; r_out := r_out r; r_round := true; r_canceled := r_canceled r;
                      r_owns := r_owns r; r_placed := r_placed r; r_seen := r_seen r ++ names;
                      r_updated := r_updated r; r_check := r_check r; r_summary := r_summary r;
-                     r_teardown := r_teardown r; r_setup := r_setup r; r_creator := r_creator r; r_polled := r_polled r |} in
+                     r_teardown := r_teardown r; r_setup := r_setup r; r_creator := r_creator r; r_polled := r_polled r; r_collected := true |} in
         Some {| created := created s; st := st s; bl := bl s; ids := ids s; next_index := next_index s;
                 holder := Some r'; marker := marker s; complete := complete s; canceled := canceled s;
                 rows := rows s; pending := remove_rows rs (pending s); processed := processed s ++ rs;
@@ -319,7 +329,7 @@ Definition step (sc : scenario) (s : state) (e : event) : option state :=
                      r_index := r_index r; r_out := r_out r; r_round := true; r_canceled := r_canceled r;
                      r_owns := r_owns r; r_placed := r_placed r; r_seen := r_seen r ++ [j];
                      r_updated := r_updated r; r_check := r_check r; r_summary := r_summary r;
-                     r_teardown := r_teardown r; r_setup := r_setup r; r_creator := r_creator r; r_polled := r_polled r |} in
+                     r_teardown := r_teardown r; r_setup := r_setup r; r_creator := r_creator r; r_polled := r_polled r; r_collected := r_collected r |} in
         Some {| created := created s; st := st s; bl := bl s; ids := ids s; next_index := next_index s;
                 holder := Some r'; marker := marker s; complete := complete s; canceled := canceled s;
                 rows := rows s ++ [rw]; pending := pending s; processed := processed s ++ [rw];
@@ -332,12 +342,12 @@ Definition step (sc : scenario) (s : state) (e : event) : option state :=
     match in_round s p with
     | Some r =>
       if negb (marker s) && negb (r_owns r) && negb (r_updated r)
-         && (r_polled r || match r_out r with [] => true | _ => false end) then
+         && (r_polled r || match r_out r with [] => true | _ => false end) && r_collected r then
         let r' := {| r_pid := r_pid r; r_alive := true; r_st := r_st r; r_bl := r_bl r; r_index := r_index r;
                      r_out := r_out r; r_round := true; r_canceled := r_canceled r; r_owns := true;
                      r_placed := r_placed r; r_seen := r_seen r; r_updated := r_updated r; r_check := r_check r;
                      r_summary := r_summary r; r_teardown := r_teardown r; r_setup := r_setup r;
-                     r_creator := r_creator r; r_polled := r_polled r |} in
+                     r_creator := r_creator r; r_polled := r_polled r; r_collected := r_collected r |} in
         Some {| created := created s; st := st s; bl := bl s; ids := ids s; next_index := next_index s;
                 holder := Some r'; marker := true; complete := complete s; canceled := canceled s;
                 rows := rows s; pending := pending s; processed := processed s; hpc := hpc s; nodes := nodes s;
@@ -364,7 +374,7 @@ Definition step (sc : scenario) (s : state) (e : event) : option state :=
                      r_round := true; r_canceled := r_canceled r; r_owns := true;
                      r_placed := r_placed r ++ names; r_seen := r_seen r; r_updated := r_updated r;
                      r_check := r_check r; r_summary := r_summary r; r_teardown := r_teardown r;
-                     r_setup := r_setup r; r_creator := r_creator r; r_polled := r_polled r |} in
+                     r_setup := r_setup r; r_creator := r_creator r; r_polled := r_polled r; r_collected := r_collected r |} in
         Some {| created := created s; st := st s; bl := bl s; ids := ids s; next_index := next_index s;
                 holder := Some r'; marker := marker s; complete := complete s; canceled := canceled s;
                 rows := rows s; pending := pending s; processed := processed s;
@@ -393,7 +403,7 @@ Definition step (sc : scenario) (s : state) (e : event) : option state :=
                      r_index := r_index r; r_out := r_out r; r_round := true; r_canceled := r_canceled r;
                      r_owns := r_owns r; r_placed := r_placed r; r_seen := r_seen r; r_updated := true;
                      r_check := r_check r; r_summary := r_summary r; r_teardown := r_teardown r;
-                     r_setup := r_setup r; r_creator := r_creator r; r_polled := r_polled r |} in
+                     r_setup := r_setup r; r_creator := r_creator r; r_polled := r_polled r; r_collected := r_collected r |} in
         Some {| created := created s; st := snap_st sn; bl := snap_bl sn; ids := sn_ids sn; next_index := sn_index sn;
                 holder := Some r'; marker := marker s; complete := complete s; canceled := canceled s;
                 rows := rows s; pending := pending s; processed := processed s; hpc := hpc s; nodes := nodes s;
@@ -408,12 +418,14 @@ Definition step (sc : scenario) (s : state) (e : event) : option state :=
       let all_done := forallb (fun j => jstate_eqb (r_st r j) DONE) (all_jobs sc) in
       if Bool.eqb b (all_done || match ids s with [] => true | _ => false end)
          && (r_updated r || (match r_placed r with [] => true | _ => false end))
-         && r_owns r && (r_updated r || eqsetN (r_out r) (ids s)) then
+         && r_owns r && (r_updated r || eqsetN (r_out r) (ids s))
+         && (r_updated r || (match r_seen r with [] => true | _ => false end))
+         && round_maximal sc r then
         Some (set_session s {| r_pid := r_pid r; r_alive := true; r_st := r_st r; r_bl := r_bl r; r_index := r_index r;
                r_out := r_out r; r_round := true; r_canceled := r_canceled r; r_owns := r_owns r;
                r_placed := r_placed r; r_seen := r_seen r; r_updated := r_updated r; r_check := Some b;
                r_summary := r_summary r; r_teardown := r_teardown r; r_setup := r_setup r;
-               r_creator := r_creator r; r_polled := r_polled r |})
+               r_creator := r_creator r; r_polled := r_polled r; r_collected := r_collected r |})
       else None
     | None => None
     end
@@ -421,12 +433,13 @@ Definition step (sc : scenario) (s : state) (e : event) : option state :=
     match in_round s p with
     | Some r =>
       if r_owns r && marker s && (r_updated r || (match r_placed r with [] => true | _ => false end))
+         && (r_updated r || (match r_seen r with [] => true | _ => false end))
          && (match r_check r with Some _ => true | None => false end) then
         let r' := {| r_pid := r_pid r; r_alive := true; r_st := r_st r; r_bl := r_bl r; r_index := r_index r;
                      r_out := r_out r; r_round := true; r_canceled := r_canceled r; r_owns := false;
                      r_placed := []; r_seen := r_seen r; r_updated := true; r_check := r_check r;
                      r_summary := r_summary r; r_teardown := r_teardown r; r_setup := r_setup r;
-                     r_creator := r_creator r; r_polled := r_polled r |} in
+                     r_creator := r_creator r; r_polled := r_polled r; r_collected := r_collected r |} in
         Some {| created := created s; st := st s; bl := bl s; ids := ids s; next_index := next_index s;
                 holder := Some r'; marker := false; complete := complete s; canceled := canceled s;
                 rows := rows s; pending := pending s; processed := processed s; hpc := hpc s; nodes := nodes s;
@@ -445,7 +458,7 @@ Definition step (sc : scenario) (s : state) (e : event) : option state :=
         Some (set_session s {| r_pid := r_pid r; r_alive := true; r_st := r_st r; r_bl := r_bl r; r_index := r_index r;
                r_out := r_out r; r_round := true; r_canceled := r_canceled r; r_owns := r_owns r;
                r_placed := r_placed r; r_seen := r_seen r; r_updated := r_updated r; r_check := r_check r;
-               r_summary := true; r_teardown := r_teardown r; r_setup := r_setup r; r_creator := r_creator r; r_polled := r_polled r |})
+               r_summary := true; r_teardown := r_teardown r; r_setup := r_setup r; r_creator := r_creator r; r_polled := r_polled r; r_collected := r_collected r |})
       else None
     | None => None
     end
@@ -459,7 +472,7 @@ Definition step (sc : scenario) (s : state) (e : event) : option state :=
                        r_out := r_out r; r_round := r_round r; r_canceled := r_canceled r; r_owns := r_owns r;
                        r_placed := r_placed r; r_seen := r_seen r; r_updated := r_updated r; r_check := r_check r;
                        r_summary := r_summary r; r_teardown := r_teardown r; r_setup := true;
-                       r_creator := r_creator r; r_polled := r_polled r |} in
+                       r_creator := r_creator r; r_polled := r_polled r; r_collected := r_collected r |} in
           Some {| created := created s; st := st s; bl := bl s; ids := ids s; next_index := next_index s;
                   holder := Some r'; marker := marker s; complete := complete s; canceled := canceled s;
                   rows := rows s; pending := pending s; processed := processed s; hpc := hpc s; nodes := nodes s;
@@ -475,7 +488,7 @@ Definition step (sc : scenario) (s : state) (e : event) : option state :=
           Some (set_session s {| r_pid := r_pid r; r_alive := true; r_st := r_st r; r_bl := r_bl r; r_index := r_index r;
                  r_out := r_out r; r_round := true; r_canceled := r_canceled r; r_owns := r_owns r;
                  r_placed := r_placed r; r_seen := r_seen r; r_updated := r_updated r; r_check := r_check r;
-                 r_summary := r_summary r; r_teardown := true; r_setup := r_setup r; r_creator := r_creator r; r_polled := r_polled r |})
+                 r_summary := r_summary r; r_teardown := true; r_setup := r_setup r; r_creator := r_creator r; r_polled := r_polled r; r_collected := r_collected r |})
         else None
       | None => None
       end
@@ -522,7 +535,7 @@ Definition step (sc : scenario) (s : state) (e : event) : option state :=
                      r_index := r_index r; r_out := r_out r; r_round := true; r_canceled := r_canceled r;
                      r_owns := r_owns r; r_placed := r_placed r; r_seen := r_seen r; r_updated := r_updated r;
                      r_check := r_check r; r_summary := false; r_teardown := false;
-                     r_setup := r_setup r; r_creator := r_creator r; r_polled := r_polled r |};
+                     r_setup := r_setup r; r_creator := r_creator r; r_polled := r_polled r; r_collected := r_collected r |};
                 marker := marker s; complete := true; canceled := canceled s;
                 rows := rows s; pending := pending s; processed := processed s; hpc := hpc s; nodes := nodes s;
                 handed := handed s; indices := indices s; launched := launched s;
@@ -539,7 +552,7 @@ Definition step (sc : scenario) (s : state) (e : event) : option state :=
                      r_index := r_index r; r_out := r_out r; r_round := r_round r; r_canceled := true;
                      r_owns := r_owns r; r_placed := r_placed r; r_seen := r_seen r; r_updated := r_updated r;
                      r_check := r_check r; r_summary := r_summary r; r_teardown := r_teardown r;
-                     r_setup := r_setup r; r_creator := r_creator r; r_polled := r_polled r |};
+                     r_setup := r_setup r; r_creator := r_creator r; r_polled := r_polled r; r_collected := r_collected r |};
                 marker := marker s; complete := complete s; canceled := true;
                 rows := rows s; pending := pending s; processed := processed s; hpc := hpc s; nodes := nodes s;
                 handed := handed s; indices := indices s; launched := launched s;
@@ -687,7 +700,7 @@ Definition step (sc : scenario) (s : state) (e : event) : option state :=
                      r_index := r_index r; r_out := r_out r; r_round := r_round r; r_canceled := r_canceled r;
                      r_owns := r_owns r; r_placed := r_placed r; r_seen := r_seen r; r_updated := r_updated r;
                      r_check := r_check r; r_summary := r_summary r; r_teardown := r_teardown r;
-                     r_setup := r_setup r; r_creator := r_creator r; r_polled := r_polled r |})
+                     r_setup := r_setup r; r_creator := r_creator r; r_polled := r_polled r; r_collected := r_collected r |})
             else s
           | None => s
           end)
